@@ -744,8 +744,10 @@ pub fn worker_main(args: &[String]) -> i32 {
         let run_unit = |u: &Unit| if Instant::now() > deadline { let mut s = UStats::default(); s.capped = true; s.completed_bound = -1; s } else if u.all { explore_unit_all(u, exec_cap, deadline, false) } else { explore_unit(u, exec_cap, deadline) };
         let mut st = run_unit(&u);
         // a replay divergence is a race inside the harness (rare: 1 in 10^6 executions with three workers and a cache): the unit is
-        // explored again from scratch once; only a second failure is reported (as a machinery error, never as a verdict)
-        if !st.machinery.is_empty() { let first = st.machinery.clone(); st = run_unit(&u); if !st.machinery.is_empty() { st.machinery.extend(first); } }
+        // explored again from scratch, at most twice; only a third failure in a row is reported (as a machinery error, never as a verdict)
+        let mut earlier: Vec<String> = vec![];
+        for _attempt in 0..2 { if st.machinery.is_empty() { break; } earlier.extend(st.machinery.clone()); st = run_unit(&u); }
+        if !st.machinery.is_empty() { st.machinery.extend(earlier); }
         leaked += st.leaked;
         let line = json!({"pos": pos, "executions": st.executions, "decision_nodes": st.decision_nodes, "steps": st.steps, "distinct_cs_traces": st.distinct_cs_traces, "distinct_outcomes": st.distinct_outcomes,
             "concurrent_execs": st.concurrent_execs, "blocked": st.blocked, "cut_fired_execs": st.cut_fired_execs, "cut_indices": st.cut_indices, "completed_bound": st.completed_bound, "capped": st.capped, "leaked": st.leaked, "states": st.states, "transitions": st.transitions, "max_depth": st.max_depth,
@@ -782,26 +784,47 @@ pub fn explore_units(rep: &Reporter, focus: &[&str], units: &[Unit], budget_s: f
     let mut results: Vec<Option<Value>> = vec![None; units.len()];
     let results_m = Mutex::new(&mut results);
     let machinery = Mutex::new(vec![]);
+    let restarts: Mutex<Vec<String>> = Mutex::new(vec![]);
     std::thread::scope(|s| {
         for stripe in 0..n {
-            let (file, exe, results_m, machinery) = (&file, &exe, &results_m, &machinery);
+            let (file, exe, results_m, machinery, restarts) = (&file, &exe, &results_m, &machinery, &restarts);
             s.spawn(move || {
                 let mut start_from = 0usize;
                 let mut respawns = 0;
+                // position at which the previous worker process of this stripe died (not by its own decision)
+                let mut died_at: Option<usize> = None;
                 loop {
                     let remaining = (budget_s - t0.elapsed().as_secs_f64()).max(0.0);
+                    let errfile = format!("{}.stderr-{}", file, stripe);
+                    let stderr = std::fs::File::create(&errfile).map(std::process::Stdio::from).unwrap_or_else(|_| std::process::Stdio::null());
                     let mut child = std::process::Command::new(exe).arg("sched-worker").arg(file).arg(stripe.to_string()).arg(n.to_string()).arg(format!("{}", remaining)).arg(exec_cap.to_string()).arg(start_from.to_string())
-                        .stdout(std::process::Stdio::piped()).stderr(std::process::Stdio::null()).spawn().expect("cannot spawn worker process");
+                        .stdout(std::process::Stdio::piped()).stderr(stderr).spawn().expect("cannot spawn worker process");
                     let out = child.stdout.take().unwrap();
                     let mut last_pos = None;
                     for line in BufReader::new(out).lines() {
                         if let Ok(l) = line { if let Ok(v) = serde_json::from_str::<Value>(&l) { let pos = v["pos"].as_u64().unwrap() as usize; last_pos = Some(pos); results_m.lock().unwrap()[pos] = Some(v); } }
                     }
-                    let code = child.wait().map(|s| s.code().unwrap_or(-1)).unwrap_or(-1);
+                    let status = child.wait();
+                    let code = status.as_ref().map(|s| s.code().unwrap_or(-1)).unwrap_or(-1);
+                    let tail: String = std::fs::read_to_string(&errfile).unwrap_or_default().lines().rev().take(4).collect::<Vec<_>>().into_iter().rev().collect::<Vec<_>>().join(" | ");
+                    let _ = std::fs::remove_file(&errfile);
                     if code == 0 { break; }
                     respawns += 1;
-                    start_from = last_pos.map_or(start_from + 1, |p| p + 1);
-                    if code != 3 { machinery.lock().unwrap().push(format!("worker process of stripe {} ended with status {} (restarted after unit {:?})", stripe, code, last_pos)); if last_pos.is_none() { start_from += n; } }
+                    // the unit during which the process ended: the first one of this stripe at or after the restart position
+                    let resume = last_pos.map_or(start_from, |p| p + 1);
+                    let fatal_pos = (resume..units.len()).find(|p| p % n == stripe);
+                    start_from = resume;
+                    if code != 3 {
+                        // a worker process which dies (signal, abort) is replaced and its unit explored again from scratch; only a
+                        // second death during the SAME unit is an error of the machinery (the unit is then given up)
+                        if died_at.is_some() && died_at == fatal_pos {
+                            machinery.lock().unwrap().push(format!("worker process of stripe {} ended twice with status {} ({:?}) while exploring unit {:?}: unit given up; last lines of its stderr: {}", stripe, code, status, fatal_pos, tail));
+                            start_from = fatal_pos.map_or(units.len(), |p| p + 1);
+                        } else {
+                            restarts.lock().unwrap().push(format!("stripe {} unit {:?}: worker process ended with status {} ({:?}), replaced, unit explored again; stderr: {}", stripe, fatal_pos, code, status, tail));
+                        }
+                        died_at = fatal_pos;
+                    }
                     if respawns > 200 || start_from >= units.len() { break; }
                 }
             });
@@ -845,6 +868,7 @@ pub fn explore_units(rep: &Reporter, focus: &[&str], units: &[Unit], budget_s: f
         "explicit_state_units": units.iter().filter(|u| u.all).count(), "explicit_state_distinct_states": g("states"), "explicit_state_transitions": g("transitions"),
         "sub_problems_popped_with_a_cache (summed over executions)": g("pops"), "of_which_popped_again_with_a_better_value": g("repops_better"),
         "exhaustive_within_bounds": complete, "samples": samples, "wall_s": t0.elapsed().as_secs_f64(),
+        "worker_processes_replaced_after_an_abnormal_end (their unit was explored again from scratch)": restarts.lock().unwrap().clone(),
         "explanation": "stateless exploration (iterative context bounding) of the real ParallelSolver under a controlled scheduler: states = decision nodes of the schedule tree, transitions = scheduling steps, every execution is a run of the implementation",
     });
     Campaign { cov, complete, states: g("decision_nodes"), transitions: g("steps"), executions: g("executions"), concurrent: g("concurrent_execs") }
